@@ -364,10 +364,49 @@ def _h_maildir_mapping():
     return fn
 
 
+# ---------------------------------------------------------------- (d) maildir: two names never share a folder
+def name_paths(layout_name, n1, n2):
+    """folder paths the maildir layout resolves the two names to (None when the layout refuses the name)"""
+    from pymap.backend.maildir.layout import DefaultLayout, FilesystemLayout
+    cls = DefaultLayout if layout_name == '++' else FilesystemLayout
+    layout = cls('/srv/mail/alice', lambda path, create=True: None)
+    out = []
+    for n in (n1, n2):
+        try:
+            out.append(layout.get_path(n, '/'))
+        except (OSError, ValueError, KeyError):
+            out.append(None)
+    return out
+
+
+def _h_injective(layout_name, l1, l2):
+    """a mailbox name is a key: two different names the layout accepts must not resolve to the same folder (otherwise
+    LIST shows another name than the one created and DELETE/RENAME of one name acts on the other)"""
+    def fn(eng):
+        from pysymex import fresh_str, B, Outcome
+        n1 = fresh_str(eng, 'a', l1, hi=0x7f)
+        n2 = fresh_str(eng, 'b', l2, hi=0x7f)
+        wit = lambda m: {'layout': layout_name, 'n1': n1.concrete(m), 'n2': n2.concrete(m)}  # noqa: E731
+        if l1 == l2 and bool(n1 == n2):
+            return Outcome(True, witness=wit, site='same name')
+        p1, p2 = name_paths(layout_name, n1, n2)
+        if p1 is None or p2 is None:
+            return Outcome(True, witness=wit, site='refused')
+        if len(p1) != len(p2):
+            return Outcome(True, witness=wit, site='different paths')
+        return Outcome(~B(p1 == p2), witness=wit, site='compared', info='two names, one folder')
+    return fn
+
+
 def harnesses(tier):
     from pysymex.runner import Harness
     q = tier == 'quick'
     hs = []
+    for layout in ('++', 'fs'):
+        for l1, l2 in ([(1, 1), (2, 2), (3, 3), (3, 2)] if q else [(1, 1), (2, 2), (3, 3), (3, 2), (4, 4), (4, 3), (5, 5)]):
+            hs.append(Harness('maildir_names_injective[%s,len=%d,%d]' % (layout, l1, l2), _h_injective(layout, l1, l2),
+                              {'layout': layout, 'name_lengths': [l1, l2], 'characters': 'ASCII, symbolic'},
+                              replay='injective', task_budget=60))
     for nn, nl, ql in ([(1, 1, 2), (1, 2, 2), (1, 2, 3), (2, 1, 2)] if q else
                        [(1, 1, 2), (1, 2, 2), (1, 2, 3), (2, 1, 2), (1, 3, 3), (2, 2, 3), (1, 2, 4)]):
         hs.append(Harness('list_wildcards[names=%d,len=%d,pattern=%d]' % (nn, nl, ql), _h_wildcards(nn, nl, ql),
@@ -396,6 +435,13 @@ def replay(harness, w):
     def check(c, msg=''):
         if not c:
             bad.append(msg or 'obligation failed')
+    if harness == 'injective':
+        n1 = ''.join(map(chr, w['n1'])) if not isinstance(w['n1'], str) else w['n1']
+        n2 = ''.join(map(chr, w['n2'])) if not isinstance(w['n2'], str) else w['n2']
+        p1, p2 = name_paths(w['layout'], n1, n2)
+        if n1 != n2 and p1 is not None and p1 == p2:
+            bad.append('the %s layout resolves both %r and %r to %s' % (w['layout'], n1, n2, p1))
+        return {'violates': bool(bad), 'detail': bad[:3], 'category': 'two names, one folder (%s)' % w['layout']}
     if harness == 'wildcards':
         names = [''.join(chr(c) for c in n) for n in w['names']]
         query = ''.join(chr(c) for c in w['query'])
